@@ -90,6 +90,9 @@ class C03(Prop):
         'names that collide with real attributes of the node class are '
         'skipped for attribute access',
     )
+    probes = ('reach',)
+    probed_every = 10
+    reach_required = ['data.TexNode.find_all', 'data.TexNode.find', 'data.TexNode.count', 'data.TexNode.__getattr__', 'data.TexExpr.__match__', 'data.TexEnv.__match__', 'data.TexExpr.all']
     min_nontrivial = 500
     budget_s = {'quick': 240, 'thorough': 3000}
 
